@@ -420,6 +420,9 @@ end
 		{Kind: "limit", Limit: &LimitSpec{Mode: "select", Fat: true, N: 600, Cap: 2, RegSize: 512, RegMax: 1536, CallStack: 256, TimeoutMs: 60000}},
 		{Kind: "limit", Limit: &LimitSpec{Mode: "handler", Fat: false, N: 400, Cap: 0, RegSize: 5120, CallStack: 48, TimeoutMs: 60000}},
 		{Kind: "limit", Limit: &LimitSpec{Mode: "handler", Fat: true, N: 400, Cap: 1, RegSize: 1024, CallStack: 256, TimeoutMs: 60000}},
+		// the same after (and between) errors raised while the consumer's registry was completely full
+		{Kind: "limit", Limit: &LimitSpec{Mode: "receive", Fat: true, N: 600, Cap: 0, RegSize: 512, CallStack: 256, TimeoutMs: 60000, History: []string{"byte", "rec", "unpack", "co"}}},
+		{Kind: "limit", Limit: &LimitSpec{Mode: "select", Fat: true, N: 400, Cap: 1, RegSize: 384, RegMax: 640, CallStack: 256, TimeoutMs: 60000, History: []string{"unpack", "byte"}}},
 		// channel.make with sizes from harmless to absurd, under pcall, next to another state
 		{Kind: "make", Make: &MakeSpec{Sizes: []int64{0, 1, 5, 1024, 1 << 20, 67108865, 1 << 33, 1 << 40, 1 << 44, 1 << 53, 1 << 62, -1, -(1 << 40)}, TimeoutMs: 30000}},
 		// per-state library objects: a state that changes every table it can reach (channel
@@ -494,6 +497,12 @@ func genJobs(r *lib.Rand, tier string) []Job {
 		}
 		if !l.Fat {
 			l.RegSize, l.RegMax, l.CallStack = 5120, 0, r.Range(24, 80)
+		}
+		if r.Chance(70) {
+			hs := []string{"byte", "unpack", "rec", "co"}
+			for k := r.Range(1, 3); k > 0; k-- {
+				l.History = append(l.History, hs[r.Intn(len(hs))])
+			}
 		}
 		js = append(js, Job{Kind: "limit", Limit: l})
 	}
